@@ -45,9 +45,12 @@ def check_c04(ctx, job, gro, top):
         ctx.probe("atoms_supplied")
     # (ii) residues supplied as centres are backmapped around exactly those centres
     for key, xyz in job.get("supplied_centres", {}).items():
-        inst, resid = map(int, key.split(":"))
+        parts = key.split(":")
+        inst, resid = int(parts[0]), int(parts[1])
+        rname = parts[2] if len(parts) > 2 else None
         mol = top.molecules[inst]
-        node = next((n for n in mol.nodes if mol.nodes[n]["resid"] == resid), None)
+        node = next((n for n in mol.nodes if mol.nodes[n]["resid"] == resid
+                     and (rname is None or mol.nodes[n]["resname"] == rname)), None)
         if node is None:
             continue
         nd = mol.nodes[node]
@@ -77,11 +80,42 @@ def check_c04(ctx, job, gro, top):
             # the node stood in for a ligand molecule while its host was built (-lig)
             ti, n = ctx.ligated[(ti, n)]
             ctx.probe("ligand_placed_with_host")
-        added.add((ti, top.molecules[ti].nodes[n]["resid"]))
-    expected = {(i, r) for i, r in job.get("expected_built", []) if i not in ignored}
-    if added != expected:
-        extra = sorted(added - expected)
-        missing = sorted(expected - added)
+        added.add((ti, n))
+    # compared at the level of atoms (global index in topology order), so that residue numbers that start again inside
+    # a molecule and residues re-cut with -split need no special treatment
+    from gen import topgen
+    owner = {}                 # global atom index -> (instance, resid, resname) of the topology as written
+    by_res = {}
+    gi = 0
+    for inst, (_molname, atoms) in enumerate(topgen.ground_truth(job["spec"])):
+        for (resid, resname, _an, _t) in atoms:
+            owner[gi] = (inst, resid, resname)
+            by_res.setdefault((inst, resid, resname), []).append(gi)
+            gi += 1
+    gidx = {}
+    k = 0
+    for ti, mol in enumerate(top.molecules):
+        for a in mol.molecule.nodes:
+            gidx[(ti, a)] = k
+            k += 1
+    added_atoms = set()
+    for (ti, n) in added:
+        for a in top.molecules[ti].nodes[n]["graph"].nodes:
+            added_atoms.add(gidx[(ti, a)])
+    expected_atoms = set()
+    for ent in job.get("expected_built", []):
+        if ent[0] in ignored:
+            continue
+        if len(ent) > 2:
+            expected_atoms.update(by_res.get((ent[0], ent[1], ent[2]), []))
+        else:
+            for key, idxs in by_res.items():
+                if key[0] == ent[0] and key[1] == ent[1]:
+                    expected_atoms.update(idxs)
+    expected = expected_atoms
+    if added_atoms != expected_atoms:
+        extra = sorted({owner[a] for a in added_atoms - expected_atoms})
+        missing = sorted({owner[a] for a in expected_atoms - added_atoms})
         ctx.fail("C04", "built.set", f"generated residues differ from (named for rebuilding + missing from the input): "
                                      f"unexpectedly generated {extra[:6]}, not generated {missing[:6]}",
                  ignored_present=bool(ignored))
